@@ -197,6 +197,17 @@ class TraceVisitor(Visitor):
             self.index = index
             self.visit(loop.statements)
 
+        if loop.iterations <= 0:
+            # The loop body is never executed: skip over the traces inside it
+            # without processing them, otherwise the caller would try to enter
+            # this loop again forever.
+            while self.objective and self.objective[: len(address)] == address:
+                self.index += 1
+                if self.index == len(self.traces):
+                    self.objective = None
+                else:
+                    self.objective = self.traces[self.index].start
+
     def visit_CaseStatement(self, case):
         # store the walk status
         index = self.index
